@@ -129,7 +129,9 @@ bool Variable::removeEquivalence(const VariablePtr &variable1, const VariablePtr
 {
     if ((variable1 != nullptr) && (variable2 != nullptr)) {
         if (variable1->pFunc()->unsetEquivalentTo(variable2)) {
-            return variable2->pFunc()->unsetEquivalentTo(variable1);
+            bool removed = variable2->pFunc()->unsetEquivalentTo(variable1);
+            VariableImpl::removeIdsOfSeparatedVariables(variable1, variable2);
+            return removed;
         }
     }
 
@@ -139,15 +141,27 @@ bool Variable::removeEquivalence(const VariablePtr &variable1, const VariablePtr
 void Variable::removeAllEquivalences()
 {
     auto thisVariable = shared_from_this();
+    std::vector<VariablePtr> formerEquivalentVariables;
     for (const auto &variable : pFunc()->mEquivalentVariables) {
         auto equivalentVariable = variable.lock();
         if (equivalentVariable != nullptr) {
             equivalentVariable->pFunc()->unsetEquivalentTo(thisVariable);
+            formerEquivalentVariables.push_back(equivalentVariable);
         }
     }
     pFunc()->mEquivalentVariables.clear();
     pFunc()->mMappingIdMap.clear();
     pFunc()->mConnectionIdMap.clear();
+
+    // Variables that were only equivalent through this variable no longer
+    // are, so forget about their identifiers.
+
+    for (auto it1 = formerEquivalentVariables.begin(); it1 != formerEquivalentVariables.end(); ++it1) {
+        VariableImpl::removeIdsOfSeparatedVariables(thisVariable, *it1);
+        for (auto it2 = it1 + 1; it2 != formerEquivalentVariables.end(); ++it2) {
+            VariableImpl::removeIdsOfSeparatedVariables(*it1, *it2);
+        }
+    }
 }
 
 VariablePtr Variable::equivalentVariable(size_t index) const
@@ -266,6 +280,24 @@ bool Variable::VariableImpl::setEquivalentTo(const VariablePtr &equivalentVariab
     }
 
     return false;
+}
+
+void Variable::VariableImpl::removeIdsOfSeparatedVariables(const VariablePtr &variable1, const VariablePtr &variable2)
+{
+    if (variable1->hasEquivalentVariable(variable2, true)) {
+        return;
+    }
+
+    for (const auto &v1 : equivalentVariables(variable1)) {
+        for (const auto &v2 : equivalentVariables(variable2)) {
+            VariableWeakPtr weakV1 = v1;
+            VariableWeakPtr weakV2 = v2;
+            v1->pFunc()->mMappingIdMap.erase(weakV2);
+            v1->pFunc()->mConnectionIdMap.erase(weakV2);
+            v2->pFunc()->mMappingIdMap.erase(weakV1);
+            v2->pFunc()->mConnectionIdMap.erase(weakV1);
+        }
+    }
 }
 
 bool Variable::VariableImpl::unsetEquivalentTo(const VariablePtr &equivalentVariable)
